@@ -64,7 +64,7 @@ type TAEvent struct {
 // Fault describes an injected failure.
 type Fault struct {
 	JobKey string // job to fail (first attempt only unless Repeat)
-	Kind   string // errors assert exit badouts missingkey wrongtype badstagedefs
+	Kind   string // errors assert exit badouts nullouts missingkey wrongtype badstagedefs
 	Repeat bool
 	used   int
 }
@@ -606,6 +606,10 @@ func (r *TARun) runStage(job *TAJob, fault string) ([]byte, error) {
 			b = []byte("{")
 		}
 	}
+	if fault == "nullouts" {
+		// valid JSON, but not an object: the stage code returned nothing
+		b = []byte("null")
+	}
 	return b, os.WriteFile(path.Join(job.MetadataPath, target), b, 0o644)
 }
 
@@ -751,7 +755,10 @@ func (r *TARun) stepOnce() (done bool, progress bool) {
 		r.Final = "complete"
 		return true, false
 	case core.Failed:
-		_, _, _, logmsg, kind, errPaths := r.ps.GetFatalError()
+		mdFq, _, _, logmsg, kind, errPaths := r.ps.GetFatalError()
+		if r.Tracer != nil {
+			r.Tracer.fatal(mdFq, string(kind))
+		}
 		r.ErrMsg = fmt.Sprintf("%s|%s|%s", kind, strings.Join(errPaths, ","), logmsg)
 		r.log("failed", "", r.ErrMsg)
 		r.ps.Unlock()
